@@ -419,8 +419,8 @@ def real_alphabet():
 
 # ------------------------------------------------------------------------------------ G direction
 ENUM_CONSTANTS = {
-    "quick": {"Mode": "enum", "MaxOps": 2, "MaxLen": 4, "PatSyms": ["a", "b"], "EnumAlphabet": ["a", "b", "z"], "WithEps": True},
-    "thorough": {"Mode": "enum", "MaxOps": 3, "MaxLen": 4, "PatSyms": ["a", "b"], "EnumAlphabet": ["a", "b", "z"], "WithEps": False},
+    "quick": {"Mode": "enum", "MaxOps": 2, "MaxLen": 4, "PatSyms": ["a", "aa"], "EnumAlphabet": ["a", "aa", "z"], "WithEps": True},
+    "thorough": {"Mode": "enum", "MaxOps": 3, "MaxLen": 4, "PatSyms": ["a", "aa"], "EnumAlphabet": ["a", "aa", "z"], "WithEps": False},
 }
 
 
